@@ -413,6 +413,38 @@ impl<S: StreamTrait> StreamManagerState<S> {
     }
 }
 
+/// The side of a stream that a frame received from the peer addresses
+#[derive(Clone, Copy, Debug)]
+enum FrameTarget {
+    /// STREAM, RESET_STREAM and STREAM_DATA_BLOCKED address the receiving side
+    ReceiveSide(&'static str),
+    /// MAX_STREAM_DATA and STOP_SENDING address the sending side
+    SendSide(&'static str),
+}
+
+impl FrameTarget {
+    #[inline]
+    fn ensure_valid(
+        self,
+        stream_id: StreamId,
+        local_endpoint_type: endpoint::Type,
+    ) -> Result<(), transport::Error> {
+        let is_unidirectional = stream_id.stream_type().is_unidirectional();
+        let is_local = stream_id.initiator() == local_endpoint_type;
+        match self {
+            // a locally initiated unidirectional stream is send-only
+            Self::ReceiveSide(reason) if is_unidirectional && is_local => {
+                Err(transport::Error::STREAM_STATE_ERROR.with_reason(reason))
+            }
+            // a peer initiated unidirectional stream is receive-only
+            Self::SendSide(reason) if is_unidirectional && !is_local => {
+                Err(transport::Error::STREAM_STATE_ERROR.with_reason(reason))
+            }
+            Self::ReceiveSide(_) | Self::SendSide(_) => Ok(()),
+        }
+    }
+}
+
 /// Manages all active `Stream`s inside a connection.
 /// `AbstractStreamManager` is parameterized over the `Stream` type.
 #[derive(Debug)]
@@ -479,6 +511,7 @@ impl<S: 'static + StreamTrait> AbstractStreamManager<S> {
     fn handle_stream_frame<F>(
         &mut self,
         stream_id: StreamId,
+        target: FrameTarget,
         mut func: F,
     ) -> Result<(), transport::Error>
     where
@@ -491,6 +524,9 @@ impl<S: 'static + StreamTrait> AbstractStreamManager<S> {
             self.inner.reset_streams_on_error(|state| {
                 // Open streams if necessary
                 state.open_stream_if_necessary(stream_id)?;
+                // The frame has to address a side of the stream that exists. This only depends
+                // on the stream ID, so it also holds for streams that are already closed.
+                target.ensure_valid(stream_id, state.local_endpoint_type)?;
                 // Apply the provided function on the Stream.
                 // If the Stream does not exist it is no error.
                 state
@@ -890,7 +926,15 @@ impl<S: 'static + StreamTrait> stream::Manager for AbstractStreamManager<S> {
 
     fn on_data(&mut self, frame: &StreamRef) -> Result<(), transport::Error> {
         let stream_id = StreamId::from_varint(frame.stream_id);
-        self.handle_stream_frame(stream_id, |stream, events| stream.on_data(frame, events))
+        //= https://www.rfc-editor.org/rfc/rfc9000#section-19.8
+        //# An endpoint MUST terminate the connection with error
+        //# STREAM_STATE_ERROR if it receives a STREAM frame for a locally
+        //# initiated stream that has not yet been created, or for a send-only
+        //# stream.
+        let target = FrameTarget::ReceiveSide("STREAM sent on send-only stream");
+        self.handle_stream_frame(stream_id, target, |stream, events| {
+            stream.on_data(frame, events)
+        })
     }
 
     fn on_data_blocked(&mut self, _frame: DataBlocked) -> Result<(), transport::Error> {
@@ -902,26 +946,46 @@ impl<S: 'static + StreamTrait> stream::Manager for AbstractStreamManager<S> {
         frame: &StreamDataBlocked,
     ) -> Result<(), transport::Error> {
         let stream_id = StreamId::from_varint(frame.stream_id);
-        self.handle_stream_frame(stream_id, |stream, events| {
+        //= https://www.rfc-editor.org/rfc/rfc9000#section-19.13
+        //# An endpoint that receives a STREAM_DATA_BLOCKED frame for a send-only
+        //# stream MUST terminate the connection with error STREAM_STATE_ERROR.
+        let target = FrameTarget::ReceiveSide("STREAM_DATA_BLOCKED sent on send-only stream");
+        self.handle_stream_frame(stream_id, target, |stream, events| {
             stream.on_stream_data_blocked(frame, events)
         })
     }
 
     fn on_reset_stream(&mut self, frame: &ResetStream) -> Result<(), transport::Error> {
         let stream_id = StreamId::from_varint(frame.stream_id);
-        self.handle_stream_frame(stream_id, |stream, events| stream.on_reset(frame, events))
+        //= https://www.rfc-editor.org/rfc/rfc9000#section-19.4
+        //# An endpoint that receives a RESET_STREAM frame for a send-only stream
+        //# MUST terminate the connection with error STREAM_STATE_ERROR.
+        let target = FrameTarget::ReceiveSide("RESET_STREAM sent on send-only stream");
+        self.handle_stream_frame(stream_id, target, |stream, events| {
+            stream.on_reset(frame, events)
+        })
     }
 
     fn on_max_stream_data(&mut self, frame: &MaxStreamData) -> Result<(), transport::Error> {
         let stream_id = StreamId::from_varint(frame.stream_id);
-        self.handle_stream_frame(stream_id, |stream, events| {
+        //= https://www.rfc-editor.org/rfc/rfc9000#section-19.10
+        //# An endpoint that
+        //# receives a MAX_STREAM_DATA frame for a receive-only stream MUST
+        //# terminate the connection with error STREAM_STATE_ERROR.
+        let target = FrameTarget::SendSide("MAX_STREAM_DATA sent on receive-only stream");
+        self.handle_stream_frame(stream_id, target, |stream, events| {
             stream.on_max_stream_data(frame, events)
         })
     }
 
     fn on_stop_sending(&mut self, frame: &StopSending) -> Result<(), transport::Error> {
         let stream_id = StreamId::from_varint(frame.stream_id);
-        self.handle_stream_frame(stream_id, |stream, events| {
+        //= https://www.rfc-editor.org/rfc/rfc9000#section-19.5
+        //# Receiving a STOP_SENDING frame for a
+        //# receive-only stream MUST be treated as a connection error of type
+        //# STREAM_STATE_ERROR.
+        let target = FrameTarget::SendSide("STOP_SENDING sent on receive-only stream");
+        self.handle_stream_frame(stream_id, target, |stream, events| {
             stream.on_stop_sending(frame, events)
         })
     }
